@@ -6,6 +6,8 @@ define: K_DSTMT, VM=D_OPTIONS, VL=DEBUG_OPTIONS, VCT=DEBUG_OPTIONS
 funcs: w_dstmt
 backend: sat
 timeout: 120
+native: self
+native_link: none
 */
 /*@unit
 name: D_OBJ.DEBUG0
@@ -14,6 +16,8 @@ define: K_DSTMT, VM=D_OBJ, VL=DEBUG_OBJ, VCT=DEBUG_OBJ
 funcs: w_dstmt
 backend: sat
 timeout: 120
+native: self
+native_link: none
 */
 /*@unit
 name: D_CONF.DEBUG0
@@ -22,6 +26,8 @@ define: K_DSTMT, VM=D_CONF, VL=DEBUG_CONF, VCT=DEBUG_CONF
 funcs: w_dstmt
 backend: sat
 timeout: 120
+native: self
+native_link: none
 */
 /*@unit
 name: D_MEM.DEBUG0
@@ -30,6 +36,8 @@ define: K_DSTMT, VM=D_MEM, VL=DEBUG_MEM, VCT=DEBUG_MEM
 funcs: w_dstmt
 backend: sat
 timeout: 120
+native: self
+native_link: none
 */
 /*@unit
 name: D_STRINGS.DEBUG0
@@ -38,6 +46,8 @@ define: K_DSTMT, VM=D_STRINGS, VL=DEBUG_STRINGS, VCT=DEBUG_STRINGS
 funcs: w_dstmt
 backend: sat
 timeout: 120
+native: self
+native_link: none
 */
 /*@unit
 name: D_PARSE.DEBUG0
@@ -46,6 +56,8 @@ define: K_DSTMT, VM=D_PARSE, VL=DEBUG_PARSE, VCT=DEBUG_PARSE
 funcs: w_dstmt
 backend: sat
 timeout: 120
+native: self
+native_link: none
 */
 /*@unit
 name: D_NEVER.DEBUG0
@@ -54,6 +66,8 @@ define: K_DSTMT, VM=D_NEVER, VL=0, VNEVER
 funcs: w_dstmt
 backend: sat
 timeout: 120
+native: self
+native_link: none
 */
 /*@unit
 name: DPRINTF1.DEBUG0
@@ -62,6 +76,8 @@ define: K_DSTMT, VM=DPRINTF1, VL=1, VCT=1
 funcs: w_dstmt
 backend: sat
 timeout: 120
+native: self
+native_link: none
 */
 /*@unit
 name: DPRINTF2.DEBUG0
@@ -70,6 +86,8 @@ define: K_DSTMT, VM=DPRINTF2, VL=2, VCT=1
 funcs: w_dstmt
 backend: sat
 timeout: 120
+native: self
+native_link: none
 */
 /*@unit
 name: DPRINTF3.DEBUG0
@@ -78,6 +96,8 @@ define: K_DSTMT, VM=DPRINTF3, VL=3, VCT=1
 funcs: w_dstmt
 backend: sat
 timeout: 120
+native: self
+native_link: none
 */
 /*@unit
 name: DPRINTF4.DEBUG0
@@ -86,6 +106,8 @@ define: K_DSTMT, VM=DPRINTF4, VL=4, VCT=1
 funcs: w_dstmt
 backend: sat
 timeout: 120
+native: self
+native_link: none
 */
 /*@unit
 name: DPRINTF5.DEBUG0
@@ -94,6 +116,8 @@ define: K_DSTMT, VM=DPRINTF5, VL=5, VCT=1
 funcs: w_dstmt
 backend: sat
 timeout: 120
+native: self
+native_link: none
 */
 /*@unit
 name: DPRINTF6.DEBUG0
@@ -102,6 +126,8 @@ define: K_DSTMT, VM=DPRINTF6, VL=6, VCT=1
 funcs: w_dstmt
 backend: sat
 timeout: 120
+native: self
+native_link: none
 */
 /*@unit
 name: DPRINTF7.DEBUG0
@@ -110,6 +136,8 @@ define: K_DSTMT, VM=DPRINTF7, VL=7, VCT=1
 funcs: w_dstmt
 backend: sat
 timeout: 120
+native: self
+native_link: none
 */
 /*@unit
 name: DPRINTF8.DEBUG0
@@ -118,6 +146,8 @@ define: K_DSTMT, VM=DPRINTF8, VL=8, VCT=1
 funcs: w_dstmt
 backend: sat
 timeout: 120
+native: self
+native_link: none
 */
 /*@unit
 name: DPRINTF9.DEBUG0
@@ -126,6 +156,8 @@ define: K_DSTMT, VM=DPRINTF9, VL=9, VCT=1
 funcs: w_dstmt
 backend: sat
 timeout: 120
+native: self
+native_link: none
 */
 /*@unit
 name: ASSERT.DEBUG0
@@ -134,6 +166,8 @@ define: K_ASSERT
 funcs: w_assert
 backend: sat
 timeout: 120
+native: self
+native_link: none
 */
 /*@unit
 name: ASSERT_RVAL.DEBUG0
@@ -142,6 +176,8 @@ define: K_ASSERT_RVAL
 funcs: w_assert_rval
 backend: sat
 timeout: 120
+native: self
+native_link: none
 */
 /*@unit
 name: REQUIRE.DEBUG0
@@ -150,6 +186,8 @@ define: K_REQUIRE
 funcs: w_require
 backend: sat
 timeout: 120
+native: self
+native_link: none
 */
 /*@unit
 name: REQUIRE_RVAL.DEBUG0
@@ -158,6 +196,8 @@ define: K_REQUIRE_RVAL
 funcs: w_require_rval
 backend: sat
 timeout: 120
+native: self
+native_link: none
 */
 /*@unit
 name: ASSERT_NOTREACHED.DEBUG0
@@ -166,6 +206,8 @@ define: K_NOTREACHED
 funcs: w_notreached
 backend: sat
 timeout: 120
+native: self
+native_link: none
 */
 /*@unit
 name: ASSERT_NOTREACHED_RVAL.DEBUG0
@@ -174,6 +216,8 @@ define: K_NOTREACHED_RVAL
 funcs: w_notreached_rval
 backend: sat
 timeout: 120
+native: self
+native_link: none
 */
 /*@unit
 name: D_OPTIONS.DEBUG1
@@ -182,6 +226,8 @@ define: K_DSTMT, VM=D_OPTIONS, VL=DEBUG_OPTIONS, VCT=DEBUG_OPTIONS
 funcs: w_dstmt
 backend: sat
 timeout: 120
+native: self
+native_link: none
 */
 /*@unit
 name: D_OBJ.DEBUG1
@@ -190,6 +236,8 @@ define: K_DSTMT, VM=D_OBJ, VL=DEBUG_OBJ, VCT=DEBUG_OBJ
 funcs: w_dstmt
 backend: sat
 timeout: 120
+native: self
+native_link: none
 */
 /*@unit
 name: D_CONF.DEBUG1
@@ -198,6 +246,8 @@ define: K_DSTMT, VM=D_CONF, VL=DEBUG_CONF, VCT=DEBUG_CONF
 funcs: w_dstmt
 backend: sat
 timeout: 120
+native: self
+native_link: none
 */
 /*@unit
 name: D_MEM.DEBUG1
@@ -206,6 +256,8 @@ define: K_DSTMT, VM=D_MEM, VL=DEBUG_MEM, VCT=DEBUG_MEM
 funcs: w_dstmt
 backend: sat
 timeout: 120
+native: self
+native_link: none
 */
 /*@unit
 name: D_STRINGS.DEBUG1
@@ -214,6 +266,8 @@ define: K_DSTMT, VM=D_STRINGS, VL=DEBUG_STRINGS, VCT=DEBUG_STRINGS
 funcs: w_dstmt
 backend: sat
 timeout: 120
+native: self
+native_link: none
 */
 /*@unit
 name: D_PARSE.DEBUG1
@@ -222,6 +276,8 @@ define: K_DSTMT, VM=D_PARSE, VL=DEBUG_PARSE, VCT=DEBUG_PARSE
 funcs: w_dstmt
 backend: sat
 timeout: 120
+native: self
+native_link: none
 */
 /*@unit
 name: D_NEVER.DEBUG1
@@ -230,6 +286,8 @@ define: K_DSTMT, VM=D_NEVER, VL=0, VNEVER
 funcs: w_dstmt
 backend: sat
 timeout: 120
+native: self
+native_link: none
 */
 /*@unit
 name: DPRINTF1.DEBUG1
@@ -238,6 +296,8 @@ define: K_DSTMT, VM=DPRINTF1, VL=1, VCT=1
 funcs: w_dstmt
 backend: sat
 timeout: 120
+native: self
+native_link: none
 */
 /*@unit
 name: DPRINTF2.DEBUG1
@@ -246,6 +306,8 @@ define: K_DSTMT, VM=DPRINTF2, VL=2, VCT=1
 funcs: w_dstmt
 backend: sat
 timeout: 120
+native: self
+native_link: none
 */
 /*@unit
 name: DPRINTF3.DEBUG1
@@ -254,6 +316,8 @@ define: K_DSTMT, VM=DPRINTF3, VL=3, VCT=1
 funcs: w_dstmt
 backend: sat
 timeout: 120
+native: self
+native_link: none
 */
 /*@unit
 name: DPRINTF4.DEBUG1
@@ -262,6 +326,8 @@ define: K_DSTMT, VM=DPRINTF4, VL=4, VCT=1
 funcs: w_dstmt
 backend: sat
 timeout: 120
+native: self
+native_link: none
 */
 /*@unit
 name: DPRINTF5.DEBUG1
@@ -270,6 +336,8 @@ define: K_DSTMT, VM=DPRINTF5, VL=5, VCT=1
 funcs: w_dstmt
 backend: sat
 timeout: 120
+native: self
+native_link: none
 */
 /*@unit
 name: DPRINTF6.DEBUG1
@@ -278,6 +346,8 @@ define: K_DSTMT, VM=DPRINTF6, VL=6, VCT=1
 funcs: w_dstmt
 backend: sat
 timeout: 120
+native: self
+native_link: none
 */
 /*@unit
 name: DPRINTF7.DEBUG1
@@ -286,6 +356,8 @@ define: K_DSTMT, VM=DPRINTF7, VL=7, VCT=1
 funcs: w_dstmt
 backend: sat
 timeout: 120
+native: self
+native_link: none
 */
 /*@unit
 name: DPRINTF8.DEBUG1
@@ -294,6 +366,8 @@ define: K_DSTMT, VM=DPRINTF8, VL=8, VCT=1
 funcs: w_dstmt
 backend: sat
 timeout: 120
+native: self
+native_link: none
 */
 /*@unit
 name: DPRINTF9.DEBUG1
@@ -302,6 +376,8 @@ define: K_DSTMT, VM=DPRINTF9, VL=9, VCT=1
 funcs: w_dstmt
 backend: sat
 timeout: 120
+native: self
+native_link: none
 */
 /*@unit
 name: ASSERT.DEBUG1
@@ -310,6 +386,8 @@ define: K_ASSERT
 funcs: w_assert
 backend: sat
 timeout: 120
+native: self
+native_link: none
 */
 /*@unit
 name: ASSERT_RVAL.DEBUG1
@@ -318,6 +396,8 @@ define: K_ASSERT_RVAL
 funcs: w_assert_rval
 backend: sat
 timeout: 120
+native: self
+native_link: none
 */
 /*@unit
 name: REQUIRE.DEBUG1
@@ -326,6 +406,8 @@ define: K_REQUIRE
 funcs: w_require
 backend: sat
 timeout: 120
+native: self
+native_link: none
 */
 /*@unit
 name: REQUIRE_RVAL.DEBUG1
@@ -334,6 +416,8 @@ define: K_REQUIRE_RVAL
 funcs: w_require_rval
 backend: sat
 timeout: 120
+native: self
+native_link: none
 */
 /*@unit
 name: ASSERT_NOTREACHED.DEBUG1
@@ -342,6 +426,8 @@ define: K_NOTREACHED
 funcs: w_notreached
 backend: sat
 timeout: 120
+native: self
+native_link: none
 */
 /*@unit
 name: ASSERT_NOTREACHED_RVAL.DEBUG1
@@ -350,6 +436,8 @@ define: K_NOTREACHED_RVAL
 funcs: w_notreached_rval
 backend: sat
 timeout: 120
+native: self
+native_link: none
 */
 /*@unit
 name: D_OPTIONS.DEBUG2
@@ -358,6 +446,8 @@ define: K_DSTMT, VM=D_OPTIONS, VL=DEBUG_OPTIONS, VCT=DEBUG_OPTIONS
 funcs: w_dstmt
 backend: sat
 timeout: 120
+native: self
+native_link: none
 */
 /*@unit
 name: D_OBJ.DEBUG2
@@ -366,6 +456,8 @@ define: K_DSTMT, VM=D_OBJ, VL=DEBUG_OBJ, VCT=DEBUG_OBJ
 funcs: w_dstmt
 backend: sat
 timeout: 120
+native: self
+native_link: none
 */
 /*@unit
 name: D_CONF.DEBUG2
@@ -374,6 +466,8 @@ define: K_DSTMT, VM=D_CONF, VL=DEBUG_CONF, VCT=DEBUG_CONF
 funcs: w_dstmt
 backend: sat
 timeout: 120
+native: self
+native_link: none
 */
 /*@unit
 name: D_MEM.DEBUG2
@@ -382,6 +476,8 @@ define: K_DSTMT, VM=D_MEM, VL=DEBUG_MEM, VCT=DEBUG_MEM
 funcs: w_dstmt
 backend: sat
 timeout: 120
+native: self
+native_link: none
 */
 /*@unit
 name: D_STRINGS.DEBUG2
@@ -390,6 +486,8 @@ define: K_DSTMT, VM=D_STRINGS, VL=DEBUG_STRINGS, VCT=DEBUG_STRINGS
 funcs: w_dstmt
 backend: sat
 timeout: 120
+native: self
+native_link: none
 */
 /*@unit
 name: D_PARSE.DEBUG2
@@ -398,6 +496,8 @@ define: K_DSTMT, VM=D_PARSE, VL=DEBUG_PARSE, VCT=DEBUG_PARSE
 funcs: w_dstmt
 backend: sat
 timeout: 120
+native: self
+native_link: none
 */
 /*@unit
 name: D_NEVER.DEBUG2
@@ -406,6 +506,8 @@ define: K_DSTMT, VM=D_NEVER, VL=0, VNEVER
 funcs: w_dstmt
 backend: sat
 timeout: 120
+native: self
+native_link: none
 */
 /*@unit
 name: DPRINTF1.DEBUG2
@@ -414,6 +516,8 @@ define: K_DSTMT, VM=DPRINTF1, VL=1, VCT=1
 funcs: w_dstmt
 backend: sat
 timeout: 120
+native: self
+native_link: none
 */
 /*@unit
 name: DPRINTF2.DEBUG2
@@ -422,6 +526,8 @@ define: K_DSTMT, VM=DPRINTF2, VL=2, VCT=1
 funcs: w_dstmt
 backend: sat
 timeout: 120
+native: self
+native_link: none
 */
 /*@unit
 name: DPRINTF3.DEBUG2
@@ -430,6 +536,8 @@ define: K_DSTMT, VM=DPRINTF3, VL=3, VCT=1
 funcs: w_dstmt
 backend: sat
 timeout: 120
+native: self
+native_link: none
 */
 /*@unit
 name: DPRINTF4.DEBUG2
@@ -438,6 +546,8 @@ define: K_DSTMT, VM=DPRINTF4, VL=4, VCT=1
 funcs: w_dstmt
 backend: sat
 timeout: 120
+native: self
+native_link: none
 */
 /*@unit
 name: DPRINTF5.DEBUG2
@@ -446,6 +556,8 @@ define: K_DSTMT, VM=DPRINTF5, VL=5, VCT=1
 funcs: w_dstmt
 backend: sat
 timeout: 120
+native: self
+native_link: none
 */
 /*@unit
 name: DPRINTF6.DEBUG2
@@ -454,6 +566,8 @@ define: K_DSTMT, VM=DPRINTF6, VL=6, VCT=1
 funcs: w_dstmt
 backend: sat
 timeout: 120
+native: self
+native_link: none
 */
 /*@unit
 name: DPRINTF7.DEBUG2
@@ -462,6 +576,8 @@ define: K_DSTMT, VM=DPRINTF7, VL=7, VCT=1
 funcs: w_dstmt
 backend: sat
 timeout: 120
+native: self
+native_link: none
 */
 /*@unit
 name: DPRINTF8.DEBUG2
@@ -470,6 +586,8 @@ define: K_DSTMT, VM=DPRINTF8, VL=8, VCT=1
 funcs: w_dstmt
 backend: sat
 timeout: 120
+native: self
+native_link: none
 */
 /*@unit
 name: DPRINTF9.DEBUG2
@@ -478,6 +596,8 @@ define: K_DSTMT, VM=DPRINTF9, VL=9, VCT=1
 funcs: w_dstmt
 backend: sat
 timeout: 120
+native: self
+native_link: none
 */
 /*@unit
 name: ASSERT.DEBUG2
@@ -486,6 +606,8 @@ define: K_ASSERT
 funcs: w_assert
 backend: sat
 timeout: 120
+native: self
+native_link: none
 */
 /*@unit
 name: ASSERT_RVAL.DEBUG2
@@ -494,6 +616,8 @@ define: K_ASSERT_RVAL
 funcs: w_assert_rval
 backend: sat
 timeout: 120
+native: self
+native_link: none
 */
 /*@unit
 name: REQUIRE.DEBUG2
@@ -502,6 +626,8 @@ define: K_REQUIRE
 funcs: w_require
 backend: sat
 timeout: 120
+native: self
+native_link: none
 */
 /*@unit
 name: REQUIRE_RVAL.DEBUG2
@@ -510,6 +636,8 @@ define: K_REQUIRE_RVAL
 funcs: w_require_rval
 backend: sat
 timeout: 120
+native: self
+native_link: none
 */
 /*@unit
 name: ASSERT_NOTREACHED.DEBUG2
@@ -518,6 +646,8 @@ define: K_NOTREACHED
 funcs: w_notreached
 backend: sat
 timeout: 120
+native: self
+native_link: none
 */
 /*@unit
 name: ASSERT_NOTREACHED_RVAL.DEBUG2
@@ -526,6 +656,8 @@ define: K_NOTREACHED_RVAL
 funcs: w_notreached_rval
 backend: sat
 timeout: 120
+native: self
+native_link: none
 */
 /*@unit
 name: D_OPTIONS.DEBUG3
@@ -534,6 +666,8 @@ define: K_DSTMT, VM=D_OPTIONS, VL=DEBUG_OPTIONS, VCT=DEBUG_OPTIONS
 funcs: w_dstmt
 backend: sat
 timeout: 120
+native: self
+native_link: none
 */
 /*@unit
 name: D_OBJ.DEBUG3
@@ -542,6 +676,8 @@ define: K_DSTMT, VM=D_OBJ, VL=DEBUG_OBJ, VCT=DEBUG_OBJ
 funcs: w_dstmt
 backend: sat
 timeout: 120
+native: self
+native_link: none
 */
 /*@unit
 name: D_CONF.DEBUG3
@@ -550,6 +686,8 @@ define: K_DSTMT, VM=D_CONF, VL=DEBUG_CONF, VCT=DEBUG_CONF
 funcs: w_dstmt
 backend: sat
 timeout: 120
+native: self
+native_link: none
 */
 /*@unit
 name: D_MEM.DEBUG3
@@ -558,6 +696,8 @@ define: K_DSTMT, VM=D_MEM, VL=DEBUG_MEM, VCT=DEBUG_MEM
 funcs: w_dstmt
 backend: sat
 timeout: 120
+native: self
+native_link: none
 */
 /*@unit
 name: D_STRINGS.DEBUG3
@@ -566,6 +706,8 @@ define: K_DSTMT, VM=D_STRINGS, VL=DEBUG_STRINGS, VCT=DEBUG_STRINGS
 funcs: w_dstmt
 backend: sat
 timeout: 120
+native: self
+native_link: none
 */
 /*@unit
 name: D_PARSE.DEBUG3
@@ -574,6 +716,8 @@ define: K_DSTMT, VM=D_PARSE, VL=DEBUG_PARSE, VCT=DEBUG_PARSE
 funcs: w_dstmt
 backend: sat
 timeout: 120
+native: self
+native_link: none
 */
 /*@unit
 name: D_NEVER.DEBUG3
@@ -582,6 +726,8 @@ define: K_DSTMT, VM=D_NEVER, VL=0, VNEVER
 funcs: w_dstmt
 backend: sat
 timeout: 120
+native: self
+native_link: none
 */
 /*@unit
 name: DPRINTF1.DEBUG3
@@ -590,6 +736,8 @@ define: K_DSTMT, VM=DPRINTF1, VL=1, VCT=1
 funcs: w_dstmt
 backend: sat
 timeout: 120
+native: self
+native_link: none
 */
 /*@unit
 name: DPRINTF2.DEBUG3
@@ -598,6 +746,8 @@ define: K_DSTMT, VM=DPRINTF2, VL=2, VCT=1
 funcs: w_dstmt
 backend: sat
 timeout: 120
+native: self
+native_link: none
 */
 /*@unit
 name: DPRINTF3.DEBUG3
@@ -606,6 +756,8 @@ define: K_DSTMT, VM=DPRINTF3, VL=3, VCT=1
 funcs: w_dstmt
 backend: sat
 timeout: 120
+native: self
+native_link: none
 */
 /*@unit
 name: DPRINTF4.DEBUG3
@@ -614,6 +766,8 @@ define: K_DSTMT, VM=DPRINTF4, VL=4, VCT=1
 funcs: w_dstmt
 backend: sat
 timeout: 120
+native: self
+native_link: none
 */
 /*@unit
 name: DPRINTF5.DEBUG3
@@ -622,6 +776,8 @@ define: K_DSTMT, VM=DPRINTF5, VL=5, VCT=1
 funcs: w_dstmt
 backend: sat
 timeout: 120
+native: self
+native_link: none
 */
 /*@unit
 name: DPRINTF6.DEBUG3
@@ -630,6 +786,8 @@ define: K_DSTMT, VM=DPRINTF6, VL=6, VCT=1
 funcs: w_dstmt
 backend: sat
 timeout: 120
+native: self
+native_link: none
 */
 /*@unit
 name: DPRINTF7.DEBUG3
@@ -638,6 +796,8 @@ define: K_DSTMT, VM=DPRINTF7, VL=7, VCT=1
 funcs: w_dstmt
 backend: sat
 timeout: 120
+native: self
+native_link: none
 */
 /*@unit
 name: DPRINTF8.DEBUG3
@@ -646,6 +806,8 @@ define: K_DSTMT, VM=DPRINTF8, VL=8, VCT=1
 funcs: w_dstmt
 backend: sat
 timeout: 120
+native: self
+native_link: none
 */
 /*@unit
 name: DPRINTF9.DEBUG3
@@ -654,6 +816,8 @@ define: K_DSTMT, VM=DPRINTF9, VL=9, VCT=1
 funcs: w_dstmt
 backend: sat
 timeout: 120
+native: self
+native_link: none
 */
 /*@unit
 name: ASSERT.DEBUG3
@@ -662,6 +826,8 @@ define: K_ASSERT
 funcs: w_assert
 backend: sat
 timeout: 120
+native: self
+native_link: none
 */
 /*@unit
 name: ASSERT_RVAL.DEBUG3
@@ -670,6 +836,8 @@ define: K_ASSERT_RVAL
 funcs: w_assert_rval
 backend: sat
 timeout: 120
+native: self
+native_link: none
 */
 /*@unit
 name: REQUIRE.DEBUG3
@@ -678,6 +846,8 @@ define: K_REQUIRE
 funcs: w_require
 backend: sat
 timeout: 120
+native: self
+native_link: none
 */
 /*@unit
 name: REQUIRE_RVAL.DEBUG3
@@ -686,6 +856,8 @@ define: K_REQUIRE_RVAL
 funcs: w_require_rval
 backend: sat
 timeout: 120
+native: self
+native_link: none
 */
 /*@unit
 name: ASSERT_NOTREACHED.DEBUG3
@@ -694,6 +866,8 @@ define: K_NOTREACHED
 funcs: w_notreached
 backend: sat
 timeout: 120
+native: self
+native_link: none
 */
 /*@unit
 name: ASSERT_NOTREACHED_RVAL.DEBUG3
@@ -702,6 +876,8 @@ define: K_NOTREACHED_RVAL
 funcs: w_notreached_rval
 backend: sat
 timeout: 120
+native: self
+native_link: none
 */
 /*@unit
 name: D_OPTIONS.DEBUG4
@@ -710,6 +886,8 @@ define: K_DSTMT, VM=D_OPTIONS, VL=DEBUG_OPTIONS, VCT=DEBUG_OPTIONS
 funcs: w_dstmt
 backend: sat
 timeout: 120
+native: self
+native_link: none
 */
 /*@unit
 name: D_OBJ.DEBUG4
@@ -718,6 +896,8 @@ define: K_DSTMT, VM=D_OBJ, VL=DEBUG_OBJ, VCT=DEBUG_OBJ
 funcs: w_dstmt
 backend: sat
 timeout: 120
+native: self
+native_link: none
 */
 /*@unit
 name: D_CONF.DEBUG4
@@ -726,6 +906,8 @@ define: K_DSTMT, VM=D_CONF, VL=DEBUG_CONF, VCT=DEBUG_CONF
 funcs: w_dstmt
 backend: sat
 timeout: 120
+native: self
+native_link: none
 */
 /*@unit
 name: D_MEM.DEBUG4
@@ -734,6 +916,8 @@ define: K_DSTMT, VM=D_MEM, VL=DEBUG_MEM, VCT=DEBUG_MEM
 funcs: w_dstmt
 backend: sat
 timeout: 120
+native: self
+native_link: none
 */
 /*@unit
 name: D_STRINGS.DEBUG4
@@ -742,6 +926,8 @@ define: K_DSTMT, VM=D_STRINGS, VL=DEBUG_STRINGS, VCT=DEBUG_STRINGS
 funcs: w_dstmt
 backend: sat
 timeout: 120
+native: self
+native_link: none
 */
 /*@unit
 name: D_PARSE.DEBUG4
@@ -750,6 +936,8 @@ define: K_DSTMT, VM=D_PARSE, VL=DEBUG_PARSE, VCT=DEBUG_PARSE
 funcs: w_dstmt
 backend: sat
 timeout: 120
+native: self
+native_link: none
 */
 /*@unit
 name: D_NEVER.DEBUG4
@@ -758,6 +946,8 @@ define: K_DSTMT, VM=D_NEVER, VL=0, VNEVER
 funcs: w_dstmt
 backend: sat
 timeout: 120
+native: self
+native_link: none
 */
 /*@unit
 name: DPRINTF1.DEBUG4
@@ -766,6 +956,8 @@ define: K_DSTMT, VM=DPRINTF1, VL=1, VCT=1
 funcs: w_dstmt
 backend: sat
 timeout: 120
+native: self
+native_link: none
 */
 /*@unit
 name: DPRINTF2.DEBUG4
@@ -774,6 +966,8 @@ define: K_DSTMT, VM=DPRINTF2, VL=2, VCT=1
 funcs: w_dstmt
 backend: sat
 timeout: 120
+native: self
+native_link: none
 */
 /*@unit
 name: DPRINTF3.DEBUG4
@@ -782,6 +976,8 @@ define: K_DSTMT, VM=DPRINTF3, VL=3, VCT=1
 funcs: w_dstmt
 backend: sat
 timeout: 120
+native: self
+native_link: none
 */
 /*@unit
 name: DPRINTF4.DEBUG4
@@ -790,6 +986,8 @@ define: K_DSTMT, VM=DPRINTF4, VL=4, VCT=1
 funcs: w_dstmt
 backend: sat
 timeout: 120
+native: self
+native_link: none
 */
 /*@unit
 name: DPRINTF5.DEBUG4
@@ -798,6 +996,8 @@ define: K_DSTMT, VM=DPRINTF5, VL=5, VCT=1
 funcs: w_dstmt
 backend: sat
 timeout: 120
+native: self
+native_link: none
 */
 /*@unit
 name: DPRINTF6.DEBUG4
@@ -806,6 +1006,8 @@ define: K_DSTMT, VM=DPRINTF6, VL=6, VCT=1
 funcs: w_dstmt
 backend: sat
 timeout: 120
+native: self
+native_link: none
 */
 /*@unit
 name: DPRINTF7.DEBUG4
@@ -814,6 +1016,8 @@ define: K_DSTMT, VM=DPRINTF7, VL=7, VCT=1
 funcs: w_dstmt
 backend: sat
 timeout: 120
+native: self
+native_link: none
 */
 /*@unit
 name: DPRINTF8.DEBUG4
@@ -822,6 +1026,8 @@ define: K_DSTMT, VM=DPRINTF8, VL=8, VCT=1
 funcs: w_dstmt
 backend: sat
 timeout: 120
+native: self
+native_link: none
 */
 /*@unit
 name: DPRINTF9.DEBUG4
@@ -830,6 +1036,8 @@ define: K_DSTMT, VM=DPRINTF9, VL=9, VCT=1
 funcs: w_dstmt
 backend: sat
 timeout: 120
+native: self
+native_link: none
 */
 /*@unit
 name: ASSERT.DEBUG4
@@ -838,6 +1046,8 @@ define: K_ASSERT
 funcs: w_assert
 backend: sat
 timeout: 120
+native: self
+native_link: none
 */
 /*@unit
 name: ASSERT_RVAL.DEBUG4
@@ -846,6 +1056,8 @@ define: K_ASSERT_RVAL
 funcs: w_assert_rval
 backend: sat
 timeout: 120
+native: self
+native_link: none
 */
 /*@unit
 name: REQUIRE.DEBUG4
@@ -854,6 +1066,8 @@ define: K_REQUIRE
 funcs: w_require
 backend: sat
 timeout: 120
+native: self
+native_link: none
 */
 /*@unit
 name: REQUIRE_RVAL.DEBUG4
@@ -862,6 +1076,8 @@ define: K_REQUIRE_RVAL
 funcs: w_require_rval
 backend: sat
 timeout: 120
+native: self
+native_link: none
 */
 /*@unit
 name: ASSERT_NOTREACHED.DEBUG4
@@ -870,6 +1086,8 @@ define: K_NOTREACHED
 funcs: w_notreached
 backend: sat
 timeout: 120
+native: self
+native_link: none
 */
 /*@unit
 name: ASSERT_NOTREACHED_RVAL.DEBUG4
@@ -878,6 +1096,8 @@ define: K_NOTREACHED_RVAL
 funcs: w_notreached_rval
 backend: sat
 timeout: 120
+native: self
+native_link: none
 */
 /*@unit
 name: D_OPTIONS.DEBUG5
@@ -886,6 +1106,8 @@ define: K_DSTMT, VM=D_OPTIONS, VL=DEBUG_OPTIONS, VCT=DEBUG_OPTIONS
 funcs: w_dstmt
 backend: sat
 timeout: 120
+native: self
+native_link: none
 */
 /*@unit
 name: D_OBJ.DEBUG5
@@ -894,6 +1116,8 @@ define: K_DSTMT, VM=D_OBJ, VL=DEBUG_OBJ, VCT=DEBUG_OBJ
 funcs: w_dstmt
 backend: sat
 timeout: 120
+native: self
+native_link: none
 */
 /*@unit
 name: D_CONF.DEBUG5
@@ -902,6 +1126,8 @@ define: K_DSTMT, VM=D_CONF, VL=DEBUG_CONF, VCT=DEBUG_CONF
 funcs: w_dstmt
 backend: sat
 timeout: 120
+native: self
+native_link: none
 */
 /*@unit
 name: D_MEM.DEBUG5
@@ -910,6 +1136,8 @@ define: K_DSTMT, VM=D_MEM, VL=DEBUG_MEM, VCT=DEBUG_MEM
 funcs: w_dstmt
 backend: sat
 timeout: 120
+native: self
+native_link: none
 */
 /*@unit
 name: D_STRINGS.DEBUG5
@@ -918,6 +1146,8 @@ define: K_DSTMT, VM=D_STRINGS, VL=DEBUG_STRINGS, VCT=DEBUG_STRINGS
 funcs: w_dstmt
 backend: sat
 timeout: 120
+native: self
+native_link: none
 */
 /*@unit
 name: D_PARSE.DEBUG5
@@ -926,6 +1156,8 @@ define: K_DSTMT, VM=D_PARSE, VL=DEBUG_PARSE, VCT=DEBUG_PARSE
 funcs: w_dstmt
 backend: sat
 timeout: 120
+native: self
+native_link: none
 */
 /*@unit
 name: D_NEVER.DEBUG5
@@ -934,6 +1166,8 @@ define: K_DSTMT, VM=D_NEVER, VL=0, VNEVER
 funcs: w_dstmt
 backend: sat
 timeout: 120
+native: self
+native_link: none
 */
 /*@unit
 name: DPRINTF1.DEBUG5
@@ -942,6 +1176,8 @@ define: K_DSTMT, VM=DPRINTF1, VL=1, VCT=1
 funcs: w_dstmt
 backend: sat
 timeout: 120
+native: self
+native_link: none
 */
 /*@unit
 name: DPRINTF2.DEBUG5
@@ -950,6 +1186,8 @@ define: K_DSTMT, VM=DPRINTF2, VL=2, VCT=1
 funcs: w_dstmt
 backend: sat
 timeout: 120
+native: self
+native_link: none
 */
 /*@unit
 name: DPRINTF3.DEBUG5
@@ -958,6 +1196,8 @@ define: K_DSTMT, VM=DPRINTF3, VL=3, VCT=1
 funcs: w_dstmt
 backend: sat
 timeout: 120
+native: self
+native_link: none
 */
 /*@unit
 name: DPRINTF4.DEBUG5
@@ -966,6 +1206,8 @@ define: K_DSTMT, VM=DPRINTF4, VL=4, VCT=1
 funcs: w_dstmt
 backend: sat
 timeout: 120
+native: self
+native_link: none
 */
 /*@unit
 name: DPRINTF5.DEBUG5
@@ -974,6 +1216,8 @@ define: K_DSTMT, VM=DPRINTF5, VL=5, VCT=1
 funcs: w_dstmt
 backend: sat
 timeout: 120
+native: self
+native_link: none
 */
 /*@unit
 name: DPRINTF6.DEBUG5
@@ -982,6 +1226,8 @@ define: K_DSTMT, VM=DPRINTF6, VL=6, VCT=1
 funcs: w_dstmt
 backend: sat
 timeout: 120
+native: self
+native_link: none
 */
 /*@unit
 name: DPRINTF7.DEBUG5
@@ -990,6 +1236,8 @@ define: K_DSTMT, VM=DPRINTF7, VL=7, VCT=1
 funcs: w_dstmt
 backend: sat
 timeout: 120
+native: self
+native_link: none
 */
 /*@unit
 name: DPRINTF8.DEBUG5
@@ -998,6 +1246,8 @@ define: K_DSTMT, VM=DPRINTF8, VL=8, VCT=1
 funcs: w_dstmt
 backend: sat
 timeout: 120
+native: self
+native_link: none
 */
 /*@unit
 name: DPRINTF9.DEBUG5
@@ -1006,6 +1256,8 @@ define: K_DSTMT, VM=DPRINTF9, VL=9, VCT=1
 funcs: w_dstmt
 backend: sat
 timeout: 120
+native: self
+native_link: none
 */
 /*@unit
 name: ASSERT.DEBUG5
@@ -1014,6 +1266,8 @@ define: K_ASSERT
 funcs: w_assert
 backend: sat
 timeout: 120
+native: self
+native_link: none
 */
 /*@unit
 name: ASSERT_RVAL.DEBUG5
@@ -1022,6 +1276,8 @@ define: K_ASSERT_RVAL
 funcs: w_assert_rval
 backend: sat
 timeout: 120
+native: self
+native_link: none
 */
 /*@unit
 name: REQUIRE.DEBUG5
@@ -1030,6 +1286,8 @@ define: K_REQUIRE
 funcs: w_require
 backend: sat
 timeout: 120
+native: self
+native_link: none
 */
 /*@unit
 name: REQUIRE_RVAL.DEBUG5
@@ -1038,6 +1296,8 @@ define: K_REQUIRE_RVAL
 funcs: w_require_rval
 backend: sat
 timeout: 120
+native: self
+native_link: none
 */
 /*@unit
 name: ASSERT_NOTREACHED.DEBUG5
@@ -1046,6 +1306,8 @@ define: K_NOTREACHED
 funcs: w_notreached
 backend: sat
 timeout: 120
+native: self
+native_link: none
 */
 /*@unit
 name: ASSERT_NOTREACHED_RVAL.DEBUG5
@@ -1054,6 +1316,8 @@ define: K_NOTREACHED_RVAL
 funcs: w_notreached_rval
 backend: sat
 timeout: 120
+native: self
+native_link: none
 */
 /*@unit
 name: D_OPTIONS.DEBUG9999
@@ -1062,6 +1326,8 @@ define: K_DSTMT, VM=D_OPTIONS, VL=DEBUG_OPTIONS, VCT=DEBUG_OPTIONS
 funcs: w_dstmt
 backend: sat
 timeout: 120
+native: self
+native_link: none
 */
 /*@unit
 name: D_OBJ.DEBUG9999
@@ -1070,6 +1336,8 @@ define: K_DSTMT, VM=D_OBJ, VL=DEBUG_OBJ, VCT=DEBUG_OBJ
 funcs: w_dstmt
 backend: sat
 timeout: 120
+native: self
+native_link: none
 */
 /*@unit
 name: D_CONF.DEBUG9999
@@ -1078,6 +1346,8 @@ define: K_DSTMT, VM=D_CONF, VL=DEBUG_CONF, VCT=DEBUG_CONF
 funcs: w_dstmt
 backend: sat
 timeout: 120
+native: self
+native_link: none
 */
 /*@unit
 name: D_MEM.DEBUG9999
@@ -1086,6 +1356,8 @@ define: K_DSTMT, VM=D_MEM, VL=DEBUG_MEM, VCT=DEBUG_MEM
 funcs: w_dstmt
 backend: sat
 timeout: 120
+native: self
+native_link: none
 */
 /*@unit
 name: D_STRINGS.DEBUG9999
@@ -1094,6 +1366,8 @@ define: K_DSTMT, VM=D_STRINGS, VL=DEBUG_STRINGS, VCT=DEBUG_STRINGS
 funcs: w_dstmt
 backend: sat
 timeout: 120
+native: self
+native_link: none
 */
 /*@unit
 name: D_PARSE.DEBUG9999
@@ -1102,6 +1376,8 @@ define: K_DSTMT, VM=D_PARSE, VL=DEBUG_PARSE, VCT=DEBUG_PARSE
 funcs: w_dstmt
 backend: sat
 timeout: 120
+native: self
+native_link: none
 */
 /*@unit
 name: D_NEVER.DEBUG9999
@@ -1110,6 +1386,8 @@ define: K_DSTMT, VM=D_NEVER, VL=0, VNEVER
 funcs: w_dstmt
 backend: sat
 timeout: 120
+native: self
+native_link: none
 */
 /*@unit
 name: DPRINTF1.DEBUG9999
@@ -1118,6 +1396,8 @@ define: K_DSTMT, VM=DPRINTF1, VL=1, VCT=1
 funcs: w_dstmt
 backend: sat
 timeout: 120
+native: self
+native_link: none
 */
 /*@unit
 name: DPRINTF2.DEBUG9999
@@ -1126,6 +1406,8 @@ define: K_DSTMT, VM=DPRINTF2, VL=2, VCT=1
 funcs: w_dstmt
 backend: sat
 timeout: 120
+native: self
+native_link: none
 */
 /*@unit
 name: DPRINTF3.DEBUG9999
@@ -1134,6 +1416,8 @@ define: K_DSTMT, VM=DPRINTF3, VL=3, VCT=1
 funcs: w_dstmt
 backend: sat
 timeout: 120
+native: self
+native_link: none
 */
 /*@unit
 name: DPRINTF4.DEBUG9999
@@ -1142,6 +1426,8 @@ define: K_DSTMT, VM=DPRINTF4, VL=4, VCT=1
 funcs: w_dstmt
 backend: sat
 timeout: 120
+native: self
+native_link: none
 */
 /*@unit
 name: DPRINTF5.DEBUG9999
@@ -1150,6 +1436,8 @@ define: K_DSTMT, VM=DPRINTF5, VL=5, VCT=1
 funcs: w_dstmt
 backend: sat
 timeout: 120
+native: self
+native_link: none
 */
 /*@unit
 name: DPRINTF6.DEBUG9999
@@ -1158,6 +1446,8 @@ define: K_DSTMT, VM=DPRINTF6, VL=6, VCT=1
 funcs: w_dstmt
 backend: sat
 timeout: 120
+native: self
+native_link: none
 */
 /*@unit
 name: DPRINTF7.DEBUG9999
@@ -1166,6 +1456,8 @@ define: K_DSTMT, VM=DPRINTF7, VL=7, VCT=1
 funcs: w_dstmt
 backend: sat
 timeout: 120
+native: self
+native_link: none
 */
 /*@unit
 name: DPRINTF8.DEBUG9999
@@ -1174,6 +1466,8 @@ define: K_DSTMT, VM=DPRINTF8, VL=8, VCT=1
 funcs: w_dstmt
 backend: sat
 timeout: 120
+native: self
+native_link: none
 */
 /*@unit
 name: DPRINTF9.DEBUG9999
@@ -1182,6 +1476,8 @@ define: K_DSTMT, VM=DPRINTF9, VL=9, VCT=1
 funcs: w_dstmt
 backend: sat
 timeout: 120
+native: self
+native_link: none
 */
 /*@unit
 name: ASSERT.DEBUG9999
@@ -1190,6 +1486,8 @@ define: K_ASSERT
 funcs: w_assert
 backend: sat
 timeout: 120
+native: self
+native_link: none
 */
 /*@unit
 name: ASSERT_RVAL.DEBUG9999
@@ -1198,6 +1496,8 @@ define: K_ASSERT_RVAL
 funcs: w_assert_rval
 backend: sat
 timeout: 120
+native: self
+native_link: none
 */
 /*@unit
 name: REQUIRE.DEBUG9999
@@ -1206,6 +1506,8 @@ define: K_REQUIRE
 funcs: w_require
 backend: sat
 timeout: 120
+native: self
+native_link: none
 */
 /*@unit
 name: REQUIRE_RVAL.DEBUG9999
@@ -1214,6 +1516,8 @@ define: K_REQUIRE_RVAL
 funcs: w_require_rval
 backend: sat
 timeout: 120
+native: self
+native_link: none
 */
 /*@unit
 name: ASSERT_NOTREACHED.DEBUG9999
@@ -1222,6 +1526,8 @@ define: K_NOTREACHED
 funcs: w_notreached
 backend: sat
 timeout: 120
+native: self
+native_link: none
 */
 /*@unit
 name: ASSERT_NOTREACHED_RVAL.DEBUG9999
@@ -1230,6 +1536,8 @@ define: K_NOTREACHED_RVAL
 funcs: w_notreached_rval
 backend: sat
 timeout: 120
+native: self
+native_link: none
 */
 /* ==== BODY (hand-written) ==================================================
  * C20: debug output and assertions are gated exactly by the compile-time
@@ -1266,7 +1574,7 @@ void libast_fatal_error(const char *fmt, ...) { vc.fatal++; }
 static int v_arg(void) { vc.eval++; return 1; }      /* argument with a counted side effect */
 static int v_cond(int x) { vc.eval++; return x; }     /* condition with a counted side effect */
 
-#define PRE()    do { libast_debug_level = nondet_uint(); o = vc; } while (0)
+#define PRE()    do { libast_debug_level = VND(uint, libast_debug_level); o = vc; } while (0)
 #define ENS(c)   __CPROVER_assert((c), "postcondition: " #c)
 #define SAME(f)  (vc.f == o.f)
 #define PLUS1(f) (vc.f == o.f + 1)
@@ -1298,7 +1606,7 @@ void harness(void)
 int w_assert_rval(int x) { ASSERT_RVAL(v_cond(x), 7); return 1; }
 void harness(void)
 {
-    int x = nondet_int(), r;
+    int x = VND(int, x), r;
     PRE();
     r = w_assert_rval(x);
 # if DEBUG >= 1
@@ -1318,7 +1626,7 @@ void harness(void)
 void w_assert(int x) { ASSERT(v_cond(x)); vc.after = 1; }
 void harness(void)
 {
-    int x = nondet_int();
+    int x = VND(int, x);
     PRE();
     w_assert(x);
 # if DEBUG >= 1
@@ -1339,7 +1647,7 @@ void harness(void)
 int w_require_rval(int x) { REQUIRE_RVAL(v_cond(x), 7); return 1; }
 void harness(void)
 {
-    int x = nondet_int(), r;
+    int x = VND(int, x), r;
     PRE();
     r = w_require_rval(x);
     ENS(PLUS1(eval) && SAME(error) && SAME(warn) && SAME(fatal));
@@ -1353,7 +1661,7 @@ void harness(void)
 void w_require(int x) { REQUIRE(v_cond(x)); vc.after = 1; }
 void harness(void)
 {
-    int x = nondet_int();
+    int x = VND(int, x);
     PRE();
     w_require(x);
     ENS(PLUS1(eval) && SAME(error) && SAME(warn) && SAME(fatal));
